@@ -188,8 +188,8 @@ CLAIMS = {
    level='model_checking',
    text="Construction kernel: on one symbolic history (1-3 entries per list for fixed key patterns: enabled / disabled / re-enabled users, replaced rights, all-rows-"
         "without-own-rows flags; 64-bit dates and flags symbolic; authorised by the admin) three builders of a Room are executed from MIR: the live add_* sequence, the "
-        "import path (RoomNode assembled in the order RoomNode::read / AuthorisationNode::read produce - their real sort_by comparator closures are interpreted on the "
-        "symbolic dates - then prepare_new_room and parse), and the reload path (the JSON tree LOAD_QUERY returns, lists ordered as its order_by directions demand, "
+        "import path (the RoomNode the REAL RoomNode::read / AuthorisationNode::read / UserNode::read / EntityRightNode::read assemble, executed over a modelled store "
+        "that answers their two lookups - references by (source, label), rows by (id, entity) - from exactly the accepted rows; then prepare_new_room and parse), and the reload path (the JSON tree LOAD_QUERY returns, lists ordered as its order_by directions demand, "
         "through load_json / load_auth_from_json). z3 shows that import and reload succeed on every history the live path accepted and that can / is_admin / "
         "is_user_valid_at agree on a symbolic (key, entity, date, right). Counterexamples are replayed through the public API on two real database instances "
         "(mutations, restart, get_room_node + add_room_node).",
